@@ -210,6 +210,8 @@ accessor_op:
 				$$ = ast.NewBinary(ast.BinaryDecimal, $4[0], $4[1])
 			default:
 				pathlex.Error("invalid input syntax: .decimal() can only have an optional precision[,scale]")
+				// Keep the node list free of nil nodes for the rest of the parse.
+				$$ = ast.NewBinary(ast.BinaryDecimal, nil, nil)
 			}
 		}
 	| '.' DATE_P '(' ')' { $$ = ast.NewUnary(ast.UnaryDate, nil) }
